@@ -25,6 +25,7 @@ def run(tier, seed):
     R = fw.Runner(oracle.Oracle()) if br.runner_ok else None
     import webauthn
     perm = optsim.token_perm()
+    nshape = [0]
     spy = fw.GlobalStateSpy()          # option generation does not re-configure the process either (random.seed, warning filters, ...)
     spy.__enter__()
     nh, L = (60, 12) if quick else (800, 60)
@@ -60,10 +61,14 @@ def run(tier, seed):
                 def keep(x):
                     got.append(x)
                     return x
+                # (the caller's values may be any objects EQUAL to them: plain ints for algorithm ids, str subclasses - also ones whose str() is something else -, members of
+                #  the caller's own (str, Enum) classes: what appears in the options is the value)
+                nshape[0] += 1
+                arg_shape = optsim.SHAPES[nshape[0] % len(optsim.SHAPES)]
                 if is_reg:
-                    il = impl.outcome(lambda: keep(webauthn.generate_registration_options(**optsim.reg_kwargs(a))), optsim.pr_creation)
+                    il = impl.outcome(lambda: keep(webauthn.generate_registration_options(**optsim.shaped(optsim.reg_kwargs(a), arg_shape))), optsim.pr_creation)
                 else:
-                    il = impl.outcome(lambda: keep(webauthn.generate_authentication_options(**optsim.auth_kwargs(a))), optsim.pr_request)
+                    il = impl.outcome(lambda: keep(webauthn.generate_authentication_options(**optsim.shaped(optsim.auth_kwargs(a), arg_shape))), optsim.pr_request)
                 new_reads = tape.reads[n_before:]
                 if got and rng.random() < 0.5:
                     # what a caller may do to the object it was handed (after this call has been evaluated): later calls must not see it
@@ -77,7 +82,7 @@ def run(tier, seed):
                     except Exception:
                         pass
                 chk.evals += 1
-                rp = {"entry": "generate_registration_options" if is_reg else "generate_authentication_options", "args": {k: (v.hex() if isinstance(v, bytes) else v) for k, v in a.items() if k not in ("exclude", "allow")},
+                rp = {"argument_shape": arg_shape, "entry": "generate_registration_options" if is_reg else "generate_authentication_options", "args": {k: (v.hex() if isinstance(v, bytes) else v) for k, v in a.items() if k not in ("exclude", "allow")},
                       "impl": il[:600], "os_reads": [r.hex() for r in new_reads], "position": pos}
                 # direct evaluation
                 want_draws = 0
